@@ -7,10 +7,16 @@
      GenFunsEquivC15   src_sdsr_is_in_tube_agrees, src_sdsr_default_agrees, src_evoloop_default_agrees,
                        src_sdsr_call_agrees, src_evoloop_call_agrees, src_ctrbl_call_agrees
      GenFunsEquivC13   src_reversible_call_agrees, src_reversible_call_agrees_pure
-     GenFunsEquivC06   src_until_fixed_point_timesteps_agrees *)
+     GenFunsEquivC06   src_until_fixed_point_timesteps_agrees
+     GenFunsEquivC12   src_async_call_agrees, src_async_current_cell_value_1d_agrees, .._2d_agrees
+     GenFunsEquivC07   src_bits_to_int_agrees, src_int_to_bits_agrees, src_binary_rule_agrees
+     GenFunsEquivC18   src_binary_derivative_agrees, src_cyclic_binary_derivative_agrees
+     GenFunsEquivC20   src_hopfield_rule_agrees
+   Each property's chain imports only its own gen/GenFuns_Cxx.v; this file (and gen/GenFuns.v) is a convenience. *)
 From CPL Require Export gen.GenFuns.
 From CPL Require Export GenProps.GenFunsEquivC11 GenProps.GenFunsEquivC14 GenProps.GenFunsEquivC15
-                        GenProps.GenFunsEquivC13 GenProps.GenFunsEquivC06.
+                        GenProps.GenFunsEquivC13 GenProps.GenFunsEquivC06 GenProps.GenFunsEquivC12
+                        GenProps.GenFunsEquivC07 GenProps.GenFunsEquivC18 GenProps.GenFunsEquivC20.
 
 Print Assumptions src_game_of_life_rule_agrees.
 Print Assumptions src_sandpile_is_in_boundary_agrees.
@@ -24,3 +30,8 @@ Print Assumptions src_ctrbl_call_agrees.
 Print Assumptions src_reversible_call_agrees.
 Print Assumptions src_reversible_call_agrees_pure.
 Print Assumptions src_until_fixed_point_timesteps_agrees.
+Print Assumptions src_async_call_agrees.
+Print Assumptions src_binary_rule_agrees.
+Print Assumptions src_binary_derivative_agrees.
+Print Assumptions src_cyclic_binary_derivative_agrees.
+Print Assumptions src_hopfield_rule_agrees.
